@@ -38,6 +38,7 @@ func init() {
 	hk.Register("c16", "handoff", handoff)
 	hk.Register("c16", "cleansweep", cleansweep)
 	hk.Register("c16", "locktimeout", locktimeout)
+	hk.Register("c16", "lateheartbeat", lateHeartbeat)
 }
 
 const key = "entry"
@@ -206,6 +207,38 @@ func (w *world) lockPaths() (dir, hb string) {
 	return dir, filepath.Join(dir, id+".lock")
 }
 
+// zombieLock: the entry's lock directory exists now although its last creation was not an acquisition - it was re-created by a
+// heart-beat write that was already on its way when the release removed the directory (the in-memory backend creates missing
+// parent directories; on the OS backend such a write fails).  Established from the recorded backend calls, not guessed.
+func (w *world) zombieLock() bool {
+	if w.backend != "mem" || w.kind != "mutable" {
+		return false
+	}
+	dir, hb := w.lockPaths()
+	exists, implicit := false, false
+	for _, g := range w.gate.Log() {
+		if !g.OK {
+			continue
+		}
+		p := filepath.Clean(g.Path)
+		switch {
+		case (g.Op == "Mkdir" || g.Op == "MkdirAll") && p == dir:
+			exists, implicit = true, false
+		case (g.Op == "Remove" || g.Op == "RemoveAll") && p == dir:
+			exists, implicit = false, false
+		case g.Mut && p == hb && strings.HasSuffix(g.Owner, ".hb") && g.Op != "Remove" && g.Op != "RemoveAll" && g.Op != "Chtimes":
+			if !exists {
+				exists, implicit = true, true
+			}
+		}
+	}
+	if !exists || !implicit {
+		return false
+	}
+	fi, err := w.base.Stat(dir)
+	return err == nil && fi.IsDir()
+}
+
 type sweepEvent struct {
 	Op      string `json:"op"`
 	Cache   string `json:"cache"`
@@ -215,12 +248,13 @@ type sweepEvent struct {
 	Mode    string `json:"mode"`
 	Store   string `json:"store"` // result kind of the interrupted Store ("" = success)
 	Clean   string `json:"clean"`
-	Fetch   string `json:"fetch"` // result kind of the later Fetch
-	Match   string `json:"match"` // what the Fetch installed: v1 | v2 | empty | partial | mixed
-	Again   string `json:"storeAgain"`  // after all that: result kind of a Store of v1 AGAIN (the content the entry held before) by the other client ...
-	Fetch2  string `json:"fetchAgain"`  // ... and of the Fetch that follows it
+	Fetch   string `json:"fetch"`      // result kind of the later Fetch
+	Match   string `json:"match"`      // what the Fetch installed: v1 | v2 | empty | partial | mixed
+	Again   string `json:"storeAgain"` // after all that: result kind of a Store of v1 AGAIN (the content the entry held before) by the other client ...
+	Fetch2  string `json:"fetchAgain"` // ... and of the Fetch that follows it
 	Match2  string `json:"matchAgain"`
 	FaultOp string `json:"faultOp"`
+	Zombie  bool   `json:"zombie"` // see zombieLock
 }
 
 func sweep(a *hk.Args) error {
@@ -355,6 +389,7 @@ func oneSweep(kind, backend string, k, total int, mode, scratch string) (sweepEv
 		ev.Fetch2 = call(func() error { return w.clients["B"].repo.Fetch(ctx, key, w.clients["B"].dest) }, 5*time.Second)
 		ev.Match2 = w.classify(w.clients["B"].dest)
 	}
+	ev.Zombie = w.zombieLock()
 	if os.Getenv("VERIF_TIMING") != "" {
 		fmt.Fprintf(os.Stderr, "k=%d %s: setup+store %v clean %v fetch %v\n", k, mode, t1.Sub(t0), t2.Sub(t1), t3.Sub(t2))
 	}
@@ -373,7 +408,8 @@ type ilEvent struct {
 	Cache   string   `json:"cache"`
 	Backend string   `json:"backend"`
 	Seq     int      `json:"seq"`
-	Quiet   bool     `json:"quiet"` // no other call was in flight between this call's start and end
+	Quiet   bool     `json:"quiet"`  // no other call was in flight between this call's start and end
+	Zombie  bool     `json:"zombie"` // Fetched / FinalFetch: see zombieLock
 	Passed  []string `json:"passed,omitempty"`
 }
 
@@ -490,7 +526,7 @@ func interleave(a *hk.Args) error {
 				case "Store":
 					out.Write(ilEvent{Op: "Stored", ID: id, C: d.c, V: d.v, Result: d.res, Quiet: quiet})
 				case "Fetch":
-					out.Write(ilEvent{Op: "Fetched", ID: id, C: d.c, Result: d.res, Match: w.classify(w.clients[d.c].dest), Quiet: quiet})
+					out.Write(ilEvent{Op: "Fetched", ID: id, C: d.c, Result: d.res, Match: w.classify(w.clients[d.c].dest), Quiet: quiet, Zombie: quiet && w.zombieLock()})
 				}
 				continue
 			default:
@@ -561,7 +597,7 @@ func interleave(a *hk.Args) error {
 		}
 		// quiescent epilogue: a final Fetch must return the last successfully stored version
 		res := call(func() error { return w.clients["A"].repo.Fetch(ctx, key, w.clients["A"].dest) }, 5*time.Second)
-		out.Write(ilEvent{Op: "FinalFetch", ID: id, C: "A", Result: res, Match: w.classify(w.clients["A"].dest), Quiet: true})
+		out.Write(ilEvent{Op: "FinalFetch", ID: id, C: "A", Result: res, Match: w.classify(w.clients["A"].dest), Quiet: true, Zombie: w.zombieLock()})
 		w.close()
 	}
 	out.Write(ilEvent{Op: "End"})
@@ -751,7 +787,7 @@ func oneHandoff(id int, backend string, k int, scratch string, out *hk.Writer) e
 		out.Write(ilEvent{Op: "Stored", ID: id, C: "A", V: 2, Result: aRes})
 	}
 	res := call(func() error { return w.clients["B"].repo.Fetch(ctx, key, w.clients["B"].dest) }, 5*time.Second)
-	out.Write(ilEvent{Op: "FinalFetch", ID: id, C: "B", Result: res, Match: w.classify(w.clients["B"].dest), Quiet: true})
+	out.Write(ilEvent{Op: "FinalFetch", ID: id, C: "B", Result: res, Match: w.classify(w.clients["B"].dest), Quiet: true, Zombie: w.zombieLock()})
 	return nil
 }
 
@@ -819,7 +855,9 @@ func oneCleanSweep(id int, backend string, k int, scratch string, out *hk.Writer
 	w.gate.SetGating("A", true)
 	w.gate.SetGating("B", false)
 	aDone := make(chan string, 1)
-	go func() { aDone <- call(func() error { return w.clients["A"].repo.CleanEntry(ctx, key) }, 15*time.Second) }()
+	go func() {
+		aDone <- call(func() error { return w.clients["A"].repo.CleanEntry(ctx, key) }, 15*time.Second)
+	}()
 	finished := false
 	for step := 1; step < k && !finished; step++ {
 		deadline := time.Now().Add(3 * time.Second)
@@ -862,7 +900,7 @@ func oneCleanSweep(id int, backend string, k int, scratch string, out *hk.Writer
 		}
 	}
 	res := call(func() error { return w.clients["B"].repo.Fetch(ctx, key, w.clients["B"].dest) }, 5*time.Second)
-	out.Write(ilEvent{Op: "FinalFetch", ID: id, C: "B", Result: res, Match: w.classify(w.clients["B"].dest), Quiet: true})
+	out.Write(ilEvent{Op: "FinalFetch", ID: id, C: "B", Result: res, Match: w.classify(w.clients["B"].dest), Quiet: true, Zombie: w.zombieLock()})
 	return nil
 }
 
@@ -933,7 +971,9 @@ func oneLockTimeout(id int, backend string, depth int, scratch string, out *hk.W
 	smu.Unlock()
 	out.Write(ilEvent{Op: "StoreBegin", ID: id, C: "A", V: 2})
 	aDone := make(chan string, 1)
-	go func() { aDone <- call(func() error { return w.clients["A"].repo.Store(ctx, key, w.src(2)) }, 20*time.Second) }()
+	go func() {
+		aDone <- call(func() error { return w.clients["A"].repo.Store(ctx, key, w.src(2)) }, 20*time.Second)
+	}()
 	inside, after, aFinished, aRes := false, 0, false, ""
 	for t := time.Now(); time.Since(t) < 10*time.Second && !aFinished; {
 		select {
@@ -992,6 +1032,64 @@ func oneLockTimeout(id int, backend string, depth int, scratch string, out *hk.W
 	}
 	out.Write(ilEvent{Op: "Stored", ID: id, C: "A", V: 2, Result: aRes})
 	res := call(func() error { return w.clients["C"].repo.Fetch(ctx, key, w.clients["C"].dest) }, 5*time.Second)
-	out.Write(ilEvent{Op: "FinalFetch", ID: id, C: "C", Result: res, Match: w.classify(w.clients["C"].dest), Quiet: true})
+	out.Write(ilEvent{Op: "FinalFetch", ID: id, C: "C", Result: res, Match: w.classify(w.clients["C"].dest), Quiet: true, Zombie: w.zombieLock()})
+	return nil
+}
+
+// ---- late heart beat: the lock's heart beat is not waited for by Unlock --------------------------------------------------
+//
+// Lock-based cache, two clients.  The heart beat of A's lock is held at its first backend call (it has passed its context
+// test); A's Store(v1) completes - the release cancels the heart beat and removes the lock directory - and only then is the
+// held heart-beat write let go.  On the OS backend the write fails (no such directory); the in-memory backend re-creates the
+// directory.  Then B fetches.  (ids 500001: mem, 500002: os)
+
+func lateHeartbeat(a *hk.Args) error {
+	out, err := hk.NewWriter(a.Out)
+	if err != nil {
+		return err
+	}
+	defer out.Close()
+	ctx := context.Background()
+	id := 500000
+	for _, backend := range []string{"mem", "os"} {
+		id++
+		// the directed schedule is realised when the heart beat is found held at a backend call once the Store is over; a heart beat
+		// that had not reached its first call by then (it ends at its context test) is tried again
+		for attempt := 1; attempt <= 8; attempt++ {
+			w, err := newWorld(backend, "mutable", []string{"A", "B"}, a.Dir)
+			if err != nil {
+				return err
+			}
+			for _, c := range []string{"A", "B"} {
+				w.gate.SetGating(c, false)
+				w.gate.SetGating(c+".hb", false)
+			}
+			w.gate.SetGating("A.hb", true)
+			// (the first Store of an entry is reported without a StoreBegin, as everywhere)
+			res := call(func() error { return w.clients["A"].repo.Store(ctx, key, w.src(1)) }, 20*time.Second)
+			held := w.gate.Peek("A.hb") != nil
+			w.gate.SetGating("A.hb", false)
+			if !held && attempt < 8 {
+				w.close()
+				continue
+			}
+			out.Write(ilEvent{Op: "Begin", ID: id, Cache: "mutable", Backend: backend, Seq: attempt})
+			out.Write(ilEvent{Op: "Stored", ID: id, C: "A", V: 1, Result: res, Quiet: true})
+			for i := 0; i < 50; i++ {
+				if p := w.gate.Peek("A.hb"); p != nil {
+					w.gate.Release(p, fsgate.Proceed)
+					continue
+				}
+				time.Sleep(2 * time.Millisecond)
+			}
+			out.Write(ilEvent{Op: "FetchBegin", ID: id, C: "B"})
+			fres := call(func() error { return w.clients["B"].repo.Fetch(ctx, key, w.clients["B"].dest) }, 10*time.Second)
+			out.Write(ilEvent{Op: "FinalFetch", ID: id, C: "B", Result: fres, Match: w.classify(w.clients["B"].dest), Quiet: true, Zombie: w.zombieLock(), Seq: map[bool]int{true: 1, false: 0}[held]})
+			w.close()
+			out.Flush()
+			break
+		}
+	}
+	out.Write(ilEvent{Op: "End"})
 	return nil
 }
